@@ -28,6 +28,25 @@ CLAIMED = {
             "Trusted: map model interval computation; byte-string bounds are kept prefix-free w.r.t. stored keys "
             "(checked by the runner, skipped and counted otherwise).",
             "model-based property testing + metamorphic (buffer address swap)", "5 C02"),
+    "C05": ("qsbr", "exploration",
+            "Programs of 2-4 real QSBR threads over abstract objects (catalogue of epoch-change races scripted with "
+            "harness-level await constraints + generated programs) run under the deterministic scheduler with "
+            "every QSBR state-word and orphan-list access a scheduling point; all schedules with <= 2 preemptions "
+            "(3 on a subset in the thorough tier) plus PCT and random walks; the reference oracle and the literal "
+            "grace-period oracle are evaluated at every free notification.",
+            "SC at hook granularity; thread start/exit exercised as resume/pause; weakest reading of 'passed "
+            "through a quiescent state' (a call in progress counts).",
+            "schedule enumeration (bounded-preemption DFS, PCT, random walk) over generated QSBR programs with "
+            "reference + grace-period oracle at each free", "5 C05"),
+    "C06": ("qsbr", "exploration",
+            "The C05 executions, each followed by a deterministic drain; free notifications are counted per retired "
+            "block (exactly once, never lost after three undisturbed rounds), the registered-thread count getter "
+            "is compared with the harness count at every operation boundary with no pause/resume in flight, and "
+            "all emptiness getters are checked after the final two quiescent states.",
+            "Same scheduler assumptions as C05; the three-round bound is asserted only in the undisturbed drain "
+            "(what the statement promises).",
+            "schedule enumeration over generated QSBR programs + drain with exactly-once / thread-count / "
+            "emptiness oracles", "5 C06"),
     "C07": ("lock", "exploration",
             "Generated scripts of 2-3 threads on one optimistic_lock with three protected words run on real threads "
             "under a deterministic cooperative scheduler whose scheduling points are the hooks before every atomic "
@@ -120,6 +139,8 @@ def main():
             {"name": "enc", "path": "src/enc", "serves_properties": ["C11", "C12", "C15"],
              "kind_free_text": "exhaustive chain enumerator (optimised build) + seeded generator of component tuples "
                                "with value shrinking (ASan+UBSan build); oracle restates the documented total order"},
+            {"name": "qsbr", "path": "src/conc_qsbr (scheduler: src/sched)", "serves_properties": ["C05", "C06"],
+             "kind_free_text": "same scheduler engine; programs over abstract objects with free-notification oracles"},
             {"name": "lock", "path": "src/conc_lock (scheduler: src/sched)", "serves_properties": ["C07"],
              "kind_free_text": "deterministic cooperative scheduler over real threads (baton passing at the "
                                "verification hooks), stateless DFS to a preemption bound + PCT + random walk, "
